@@ -754,17 +754,23 @@ end
 	case k < 8:
 		p.Scenario = "once"
 		nt := r.Range(2, 4)
-		b.WriteString(`def caller(o: Once, id: Int, wg: WaitGroup)
-  o.call(|| -> println "once")
-  println "after${id}"
-  wg.end
-end
-
-`)
-		fmt.Fprintf(&b, "o := Once()\nwg := WaitGroup(%d)\n", nt)
-		for i := 1; i <= nt; i++ {
-			fmt.Fprintf(&b, "go caller(o, %d, wg)\n", i)
-			p.Expect = append(p.Expect, fmt.Sprintf("after%d", i))
+		work := Pick(r, []int{0, 3, 20, 80})
+		if r.Chance(0.5) {
+			// Once#call from several threads: the body does some work and prints "once" when it is
+			// done; nobody may get past the call before that
+			fmt.Fprintf(&b, "def caller(o: Once, id: Int, wg: WaitGroup)\n  o.call() ->\n    k := 0\n    while k < %d\n      k = k + 1\n    end\n    println \"once\"\n  end\n  println \"after${id}\"\n  wg.end\nend\n\n", work)
+			fmt.Fprintf(&b, "o := Once()\nwg := WaitGroup(%d)\n", nt)
+			for i := 1; i <= nt; i++ {
+				fmt.Fprintf(&b, "go caller(o, %d, wg)\n", i)
+				p.Expect = append(p.Expect, fmt.Sprintf("after%d", i))
+			}
+		} else {
+			// Once.memo: every caller gets the memoized value, also one that arrives while the body runs
+			fmt.Fprintf(&b, "om := Once.memo ->\n  k := 0\n  while k < %d\n    k = k + 1\n  end\n  println \"once\"\n  42 + k\nend\nwg := WaitGroup(%d)\n", work, nt)
+			for i := 1; i <= nt; i++ {
+				fmt.Fprintf(&b, "go\n  println \"after%d=${om()}\"\n  wg.end\nend\n", i)
+				p.Expect = append(p.Expect, fmt.Sprintf("after%d=%d", i, 42+work))
+			}
 		}
 		b.WriteString("wg.wait\nprintln \"end\"\n")
 		p.Expect = append(p.Expect, "once", "end")
@@ -788,6 +794,21 @@ end
 		}
 		b.WriteString("wg.wait\nprintln \"all\"\n")
 		p.Expect = append(p.Expect, "all")
+	case k < 10 && r.Chance(0.5):
+		// one thread starts a wait group while others end it as eagerly as they can: an end at
+		// zero raises an error (caught, retried a bounded number of times); the counter moves
+		// around zero under every interleaving of start and end
+		p.Scenario = "wgrace"
+		enders := r.Range(1, 3)
+		n := r.Range(1, 4)
+		b.WriteString("def starter(wg: WaitGroup, n: Int, done: WaitGroup)\n  i := 0\n  while i < n\n    wg.start\n    i = i + 1\n  end\n  done.end\nend\n\n")
+		b.WriteString("def ender(wg: WaitGroup, n: Int, done: WaitGroup)\n  ended := 0\n  tries := 0\n  while ended < n && tries < 60\n    tries = tries + 1\n    do\n      wg.end\n      ended = ended + 1\n    catch Error() as e\n      ended = ended + 0\n    end\n  end\n  done.end\nend\n\n")
+		fmt.Fprintf(&b, "wg := WaitGroup()\ndone := WaitGroup(%d)\ngo starter(wg, %d, done)\n", enders+1, enders*n)
+		for i := 0; i < enders; i++ {
+			fmt.Fprintf(&b, "go ender(wg, %d, done)\n", n)
+		}
+		b.WriteString("done.wait\nprintln \"end\"\n")
+		p.Expect = []string{"end"}
 	case k < 10:
 		// a channel is closed by a peer while (or before) the main thread sits in a select
 		// with a send case on it: a closed channel rejects the push with an error, the
